@@ -317,9 +317,12 @@ async fn fs_worker(log: SharedLog, me: usize, inc: u32, files: u32, ring_ops: u3
         let rd = tfs::read(&p0).await;
         log.ev(format!("n{me}.{inc} r{r} tokio write {:?} read {:?} at {}us", w.map_err(|e| e.kind()), rd.map_err(|e| e.kind()), us(turmoil::elapsed())));
         // the same (cached, unless evicted) page again and again: every completion instant is part of the trace
-        for k in 0..4 {
-            let x = tfs::read(&p0).await.map(|b| b.len());
-            log.ev(format!("n{me}.{inc} r{r} tokio re-read #{k} -> {:?} at {}us", x.map_err(|e| e.kind()), us(turmoil::elapsed())));
+        if let Ok(tf) = tfs::OpenOptions::new().read(true).open(&p0).await {
+            for k in 0..6 {
+                let mut b = [0u8; 15];
+                let x = tf.read_at(&mut b, 0).await;
+                log.ev(format!("n{me}.{inc} r{r} tokio re-read #{k} -> {:?} at {}us", x.map_err(|e| e.kind()), us(turmoil::elapsed())));
+            }
         }
         // positional reads through the std shim (io_error / short_read knobs show up here)
         if let Ok(h) = sfs::File::open(&p0) {
@@ -634,7 +637,8 @@ fn gen_scenario(rng: &mut Rng) -> Scenario {
         sync_pct: *rng.pick(&[0u32, 0, 30, 100]),
         io_err_pct: *rng.pick(&[0u32, 0, 0, 20]),
         short_read_pct: *rng.pick(&[0u32, 0, 50]),
-        latency_us: if rng.chance(1, 3) { Some((rng.range(10, 500), rng.range(500, 4000))) } else { None },
+        // (half of the latency ranges reach beyond one tick: a hit and a miss then complete in different steps)
+        latency_us: if rng.chance(1, 3) { Some((rng.range(10, 500), rng.range(500, 4000) + if rng.bool() { cfg.tick_us * rng.range(1, 3) } else { 0 })) } else { None },
         page_cache: rng.chance(1, 4),
         block_size: *rng.pick(&[0u64, 0, 4, 16]),
         evict_pm: *rng.pick(&[0u32, 300, 700]),
